@@ -170,4 +170,48 @@ MUTANTS = [
 			continue
 		}
 		wg.Add(1)""", note="with >2 handlers only the last is waited for"),
+    # ---- C04
+    M("c04-remove-no-end-update", ["C04"], DISP, """	if hn.next == nil {
+		l.end = hn.prev
+	} else {""", """	if hn.next == nil {
+		_ = l.end
+	} else {"""),
+    M("c04-remove-no-start-update", ["C04"], DISP, """	if hn.prev == nil {
+		l.start = hn.next
+	} else {""", """	if hn.prev == nil {
+		_ = l.start
+	} else {"""),
+    M("c04-delete-cond-inverted", ["C04"], DISP, "	if l.start == nil || l.end == nil {\n		delete(hs.set, hn.event)", "	if l.start != nil && l.end != nil {\n		delete(hs.set, hn.event)"),
+    M("c04-add-no-tolower", ["C04"], DISP, "	defer hs.Unlock()\n	ev = strings.ToLower(ev)\n	l, ok := hs.set[ev]", "	defer hs.Unlock()\n	l, ok := hs.set[ev]"),
+    M("c04-dispatch-no-tolower", ["C04"], DISP, "	ev := strings.ToLower(line.Cmd)", "	ev := line.Cmd"),
+    M("c04-closure-captures-loopvar", ["C04"], DISP, """		go func(hn *hNode) {
+			hn.Handle(conn, line.Copy())
+			wg.Done()
+		}(hn)""", """		go func() {
+			hn.Handle(conn, line.Copy())
+			wg.Done()
+		}()"""),
+    M("c04-dispatch-holds-rlock", ["C04"], DISP, """	ev := strings.ToLower(line.Cmd)
+	wg := &sync.WaitGroup{}""", """	ev := strings.ToLower(line.Cmd)
+	hs.RLock()
+	defer hs.RUnlock()
+	wg := &sync.WaitGroup{}""", note="recursive read lock + in-handler Remove (write lock) dead-locks"),
+    M("c04-live-list-iteration", ["C04"], DISP, """	for _, hn := range hs.getHandlers(ev) {
+		wg.Add(1)""", """	hs.RLock()
+	lst := hs.set[ev]
+	hs.RUnlock()
+	var first *hNode
+	if lst != nil {
+		first = lst.start
+	}
+	for hn := first; hn != nil; hn = hn.next {
+		wg.Add(1)""", note="iterates the live list: a handler added/removed during dispatch is seen/lost"),
+    M("c04-bg-snapshot-early", ["C04"], DISP, "	go conn.bgHandlers.dispatch(conn, line)", "	go conn.bgHandlers.dispatch(conn, line)", expect="control", note="placeholder identity mutant: measures the check's false-alarm rate under the mutant harness"),
+    M("c04-remove-middle-unlinks-tail", ["C04"], DISP, """	} else {
+		hn.prev.next = hn.next
+	}""", """	} else if hn.next != nil && hn.next.next != nil {
+		hn.prev.next = hn.next.next
+	} else {
+		hn.prev.next = hn.next
+	}""", note="removing a middle node of a list of >=4 drops its successor too"),
 ]
